@@ -384,6 +384,60 @@ pub mod kb4a4 {
         Ok((circuit, traces))
     }
 
+    /// The pieces of an honest arity-4 opening check, not yet run (for C19's input-fault plans):
+    /// circuit, public inputs, private sibling data per op, position of the direction inputs
+    /// inside the public inputs and their number.
+    #[allow(clippy::type_complexity)]
+    pub fn build_parts(shape: &MmcsShape, index: usize) -> Result<(p3_circuit::Circuit<CF>, Vec<CF>, Vec<(p3_circuit::NonPrimitiveOpId, Vec<CF>)>, usize, usize), String> {
+        let (perm, m) = mmcs(shape.cap_height);
+        let ms = mats(shape);
+        let dimensions: Vec<_> = ms.iter().map(|m| m.dimensions()).collect();
+        let max_h = shape.dims.iter().map(|d| d.0).max().unwrap();
+        let log_max = log2_ceil_usize(max_h);
+        let (commit, pd) = m.commit(ms);
+        let index = index % max_h;
+        let opening = m.open_batch(index, &pd);
+        let roots: Vec<[F; DIGEST_ELEMS]> = commit.roots().to_vec();
+        let proof = &opening.opening_proof;
+        let cfg = Poseidon2Config::KOALA_BEAR_D4_W32;
+        let mut b = CircuitBuilder::<CF>::new();
+        b.enable_poseidon2_perm_width_32::<KoalaBearD4Width32, _>(generate_poseidon2_trace::<CF, KoalaBearD4Width32>, perm.clone());
+        b.enable_recompose::<F>(generate_recompose_trace::<F, CF>);
+        let openings: Vec<Vec<_>> = opening.opened_values.iter().map(|o| (0..o.len()).map(|_| b.public_input()).collect()).collect();
+        let dirs = b.alloc_public_inputs(log_max, "directions");
+        let caps: Vec<Vec<_>> = (0..roots.len()).map(|_| b.alloc_public_inputs(DIGEST_ELEMS / 4, "cap").to_vec()).collect();
+        let ops = verify_batch_circuit_arity4::<F, CF>(&mut b, cfg, &caps, &dimensions, &dirs, &openings).map_err(|e| format!("{e:?}"))?;
+        let circuit = b.build().map_err(|e| format!("{e:?}"))?;
+        let mut pubs: Vec<CF> = opening.opened_values.iter().flat_map(|v| v.iter().map(|x| CF::from(*x))).collect();
+        let dir_off = pubs.len();
+        pubs.extend((0..log_max).map(|k| CF::from_bool((index >> k) & 1 == 1)));
+        for r in &roots {
+            pubs.extend(pack_digest(r));
+        }
+        if ops.len() != proof.len() {
+            return Err(format!("{} sibling slots for {} proof digests", ops.len(), proof.len()));
+        }
+        let capacity_ext = cfg.capacity_ext();
+        let mut data = Vec::new();
+        let (mut pi, mut oi) = (0usize, 0usize);
+        while oi < ops.len() {
+            let op = ops[oi];
+            let mut flat = Vec::new();
+            let mut n = 0usize;
+            while oi < ops.len() && ops[oi] == op {
+                flat.extend(pack_digest(&proof[pi]));
+                pi += 1;
+                oi += 1;
+                n += 1;
+            }
+            for _ in n..3 {
+                flat.extend(vec![CF::ZERO; capacity_ext]);
+            }
+            data.push((op, flat));
+        }
+        Ok((circuit, pubs, data, dir_off, log_max))
+    }
+
     /// `build_and_run` for the free-state arm: the cap is either supplied (public inputs) or left
     /// to be learnt (private inputs that are withheld, so that the computed root fills their slots);
     /// `fault` = (hook call, limb, delta) on the private input state of the permutation rows.
